@@ -226,6 +226,40 @@ def suite_diff_crs(ctx):
                 pass
 
 
+def suite_reject(ctx):
+    """AreaSlicer._sanitize_polygon_bounds ("no slice on area") against the model's per-axis test, on bounds given in array coordinates"""
+    from pyresample.geometry import IncompatibleAreas
+    from pyresample.slicer import AreaSlicer
+    r = ctx.rng
+    src = kc.mk_area({"proj": "laea", "lat_0": 52, "lon_0": 10, "ellps": "WGS84"}, 12, 9, (-6.0e5, -4.5e5, 6.0e5, 4.5e5))     # 100 km pixels
+    tgt = kc.mk_area({"proj": "laea", "lat_0": 52, "lon_0": 10, "ellps": "WGS84"}, 3, 3, (-1.0e5, -1.0e5, 1.0e5, 1.0e5))
+    sl = AreaSlicer(src, tgt)
+    W, H = src.width, src.height
+    lattice = [Fraction(k, 4) for k in range(-12, 4 * 14)]
+    for _ in range(150 if ctx.quick else 1500):
+        cx = sorted(r.sample(lattice, 2))
+        cy = sorted(Fraction(v) for v in r.sample([Fraction(k, 4) for k in range(-12, 4 * 11)], 2))
+        # array coordinates -> projection coordinates of the source (exact: 100 km pixels)
+        minx, maxx = (-6.0e5 + 5.0e4 + float(c_) * 1.0e5 for c_ in cx)
+        maxy, miny = (4.5e5 - 5.0e4 - float(c_) * 1.0e5 for c_ in cy)
+        try:
+            sl._sanitize_polygon_bounds((minx, miny, maxx, maxy))
+            raised = False
+        except IncompatibleAreas:
+            raised = True
+        mx = ctx.M.ask("reject", W, cx[0], cx[1]) == "1"
+        my = ctx.M.ask("reject", H, cy[0], cy[1]) == "1"
+        ctx.case("reject", (str(cx), str(cy)), nontrivial=(mx or my) != (cx[1] < 0 or cy[1] < 0 or cx[0] >= W or cy[0] >= H))
+        if raised != (mx or my):
+            ctx.disagree("reject", {"x_bounds": [str(v) for v in cx], "y_bounds": [str(v) for v in cy], "shape": [H, W]}, raised, mx or my, "'no slice on area' decision differs")
+        # the property on the real code: a pixel that contains a position inside the bounds must not be rejected
+        needed = any(0 <= k <= W - 1 and cx[0] <= k + Fraction(1, 2) and cx[1] >= k - Fraction(1, 2) for k in range(W)) and \
+            any(0 <= k <= H - 1 and cy[0] <= k + Fraction(1, 2) and cy[1] >= k - Fraction(1, 2) for k in range(H))
+        if raised and needed:
+            ctx.fail("slicer.AreaSlicer._sanitize_polygon_bounds", f"bounds (columns {cx[0]}..{cx[1]}, rows {cy[0]}..{cy[1]}) overlap pixel footprints of the {H}x{W} area but are "
+                     "reported as 'no slice on area'", {"x_bounds": [str(v) for v in cx], "y_bounds": [str(v) for v in cy], "shape": [H, W]}, None, tags={"kind": "reject"}, size=2)
+
+
 def suite_swath(ctx):
     import dask.array as da
     import xarray as xr
@@ -280,4 +314,5 @@ def suite_swath(ctx):
 def run(ctx):
     suite_same_crs(ctx)
     suite_diff_crs(ctx)
+    suite_reject(ctx)
     suite_swath(ctx)
